@@ -919,7 +919,7 @@ pub fn main(env: &Env) -> i32 {
         env,
         "live_state",
         "a real gossip node (gossip state, block fetcher loop, per-connection handler with its push_block_store_state server and get_block client) with an empty store against a hostile scripted peer over loopback TCP (real preface / noise / handshake, hand-made RPC frames): 1-4 block-range announcements whose first block and last block - absent, a pre-genesis number, or a commit certificate carrying that number - are 0, 1, 2^k, u64::MAX-1, u64::MAX or random, a third of them additionally mutated at wire level by the schema-aware extremiser; the peer never answers the node's requests and comes back under another identity when it is dropped; \
-         oracle: no task of the node panics (a panic of the handler or fetcher surfaces in the harness), and once the hostile connection has ended an honest peer that announces the real chain gets every block fetched and stored unchanged. Non-trivial = at least one hostile announcement was acknowledged",
+         oracle: no task of the node panics (a panic of the handler or fetcher surfaces in the harness), and once the hostile connection has ended an honest peer that announces the real chain gets every block fetched and stored unchanged (blocks that differ are a violation; a fetch that does not complete within 10 s of wall-clock time is reported as inconclusive). Non-trivial = at least one hostile announcement was acknowledged",
         PartOpts { cases: env.tier.pick(320, 8_000), max_shrink_iters: 60, samples: 2 },
         || Choices::strategy(120).prop_map(|mut ch| crate::c19::gen_state(&mut ch)),
         crate::c19::check_state,
